@@ -1,6 +1,7 @@
 package main
 
 import (
+	"encoding/json"
 	"fmt"
 	"os"
 	"os/exec"
@@ -28,10 +29,43 @@ func genOverlay(b *built) (string, error) {
 	if err := os.MkdirAll(ov, 0o755); err != nil {
 		return "", err
 	}
-	if r := os.Getenv("VERIF_REPO"); r != "" {
-		repoRoot = r
+	mut, err := mutatedRepo(b)
+	if err != nil {
+		return "", err
 	}
-	return rewrite.Generate(repoRoot, ov, []string{"verif"})
+	if mut == "" {
+		return rewrite.Generate(repoRoot, ov, []string{"verif"})
+	}
+	// rewrite the patched copy, then map everything onto the /repo paths
+	if _, err := rewrite.Generate(mut, ov, []string{"verif"}); err != nil {
+		return "", err
+	}
+	data, err := os.ReadFile(filepath.Join(ov, "overlay.json"))
+	if err != nil {
+		return "", err
+	}
+	var o struct{ Replace map[string]string }
+	if err := json.Unmarshal(data, &o); err != nil {
+		return "", err
+	}
+	repl := map[string]string{}
+	plain, err := plainOverlay(b, mut)
+	if err != nil {
+		return "", err
+	}
+	pd, _ := os.ReadFile(plain)
+	var po struct{ Replace map[string]string }
+	json.Unmarshal(pd, &po)
+	for k, v := range po.Replace {
+		repl[k] = v
+	}
+	for k, v := range o.Replace {
+		rel, _ := filepath.Rel(mut, k)
+		repl[filepath.Join(repoRoot, rel)] = v
+	}
+	out, _ := json.Marshal(map[string]interface{}{"Replace": repl})
+	p := filepath.Join(ov, "overlay.json")
+	return p, os.WriteFile(p, out, 0o644)
 }
 
 func buildSched(b *built, race bool) error {
